@@ -43,6 +43,7 @@ type worker struct {
 	runOpts  []gldap.Option
 	dir      *testdirectory.Directory
 	oldLimit syscall.Rlimit
+	autoAddr bool
 	parkMu   sync.Mutex
 	parkPat  string
 	parkCh   chan struct{}
@@ -432,6 +433,7 @@ func (w *worker) start(opts []string) {
 			w.busy = l // keep the port occupied
 		} else {
 			l.Close()
+			w.autoAddr = true
 		}
 	case "bad":
 		addr = "127.0.0.1"
@@ -449,6 +451,19 @@ func (w *worker) callRun() {
 	w.ev("run-call")
 	go func() {
 		err := w.srv.Run(w.addr, w.runOpts...)
+		// the free port the worker picked can be taken by another process before Run binds it
+		// (many workers run in parallel): that is the harness's collision, not the scenario's -
+		// pick another port and call Run again
+		for attempt := 0; attempt < 5 && err != nil && w.autoAddr && strings.Contains(err.Error(), "address already in use"); attempt++ {
+			l, lerr := net.Listen("tcp", "127.0.0.1:0")
+			if lerr != nil {
+				break
+			}
+			w.addr = l.Addr().String()
+			l.Close()
+			w.ev("addr %s", w.addr)
+			err = w.srv.Run(w.addr, w.runOpts...)
+		}
 		if err != nil {
 			w.ev("run-return err")
 		} else {
